@@ -195,6 +195,8 @@ func checkC11(p *Prog, res *Result, tier string) {
 	res.rule("C11-R5", "metrics wrapper forwards each overridden method exactly once with parameters in order", 8)
 	res.rule("C11-R6", "Get returns the ErrKeyNotFound sentinel itself", 3)
 	res.rule("C11-R11", "an adapter does not turn a failure of its engine into success or end-of-data: the error of every engine call in badger / tikv is returned (as is, wrapped or translated after a classifying test) on every path on which it can be non-nil", 20)
+	res.rule("C11-R12", "the conditions of a batch see the operations staged earlier in the same batch: the in-process engine reads the store only on the miss edge of the lookup in the batch's staged operations (the transactional engines read through their transaction)", 3)
+	res.rule("C11-R13", "the in-process engine, which keeps the slices it is given and hands out the slices it keeps, never writes a stored value in place", 2)
 	res.rule("C11-R9", "deleting a key that is not there is not an error in any adapter: Del never reports the ErrKeyNotFound sentinel (the compaction deletes a record it has already deleted, and treats any error as a failed delete)", 3)
 	res.rule("C11-R10", "an adapter that advertises native TTL hands the ttl of every write form (Put, PutIfNotExist, CAS) to the engine (or records it with the staged operation)", 6)
 	res.rule("C11-R8", "the in-process engine's iterator yields snapshot copies: live skip-list elements are dereferenced only under the store lock (C19-R3)", 2)
@@ -313,6 +315,8 @@ func checkC11(p *Prog, res *Result, tier string) {
 	checkNotFoundIdentity(p, r, res, "C11-R6")
 	checkDelIdempotent(p, r, res, "C11-R9")
 	checkReadersDoNotMutate(p, r, res, "C11-R3")
+	checkStagedOpsShadowStore(p, r, res, "C11-R12")
+	checkStoredValuesImmutable(p, res, "C11-R13")
 	checkAdapterErrorPreservation(p, r, res, "C11-R11")
 	checkNativeTTLHonoured(p, r, res, "C11-R10")
 	checkPartitionClamp(p, r, res, "C11-R7")
@@ -1438,7 +1442,8 @@ func checkC12(p *Prog, res *Result, tier string) {
 	res.Explanation = "Engine independence is a 2-safety property over engines; statically it reduces to the points where engine differences can leak. Shared with C11: identical condition-failure classes across adapters and compare-before-write (C11-R1), not-found identity (C11-R6), wrapper transparency (C11-R5), partition clamp (C11-R7). Own rules: R1 dispatch completeness — the write paths of the backend test errors only for the classes the adapter table defines (errors.Is ErrCASFailed / ErrUncertainResult, ==/Is ErrKeyNotFound, the Conflict type assertion), never for an engine-specific error; R2 the engine feature flag SupportTTL is consulted only in the scanner's expiry code."
 	res.NotDecided = "equality of transcripts across engines; engine-specific limits (transaction size, TTL timing)."
 	res.Assumptions = []string{"C11 assumptions"}
-	res.rule("C12-R0", "C11-R1 / R2 / R5 / R6 / R7 / R9 (sibling agreement of the adapters and the wrapper; batch begin/commit discipline, which only the in-process engine turns into a lock)", 30)
+	res.rule("C12-R0", "C11-R1 / R2 / R5 / R6 / R7 / R9 / R12 / R13 (sibling agreement of the adapters and the wrapper; batch begin/commit discipline, which only the in-process engine turns into a lock)", 30)
+	res.rule("C12-R6", "the scan-based expiry, which stands in for native TTL on the one engine that has none, removes an event record only under an age guard on that record's own revision, the index record by compare-and-delete (C17-R2/R3)", 4)
 	res.rule("C12-R5", "bytes handed to an engine write are not a window into a reusable buffer: the in-process engine keeps the slice it is given, the others copy it", 10)
 	res.rule("C12-R4", "results do not depend on how the engine partitions the key space, which only TiKV does (C13-R5)", 2)
 	res.rule("C12-R1", "the backend's write paths dispatch only on the error classes of the adapter table", 5)
@@ -1447,7 +1452,7 @@ func checkC12(p *Prog, res *Result, tier string) {
 
 	sub := p.subResult("C11", tier)
 	for _, o := range sub.Obls {
-		if o.Rule == "C11-R1" || o.Rule == "C11-R2" || o.Rule == "C11-R5" || o.Rule == "C11-R6" || o.Rule == "C11-R7" || o.Rule == "C11-R9" {
+		if o.Rule == "C11-R1" || o.Rule == "C11-R2" || o.Rule == "C11-R5" || o.Rule == "C11-R6" || o.Rule == "C11-R7" || o.Rule == "C11-R9" || o.Rule == "C11-R12" || o.Rule == "C11-R13" {
 			res.add("C12-R0", o.Rule+" "+o.Construct, o.Status, o.Pos, o.Detail)
 		}
 	}
@@ -1460,6 +1465,12 @@ func checkC12(p *Prog, res *Result, tier string) {
 	}
 	for k, v := range sub.Stats {
 		res.Stats[k] = v
+	}
+	// R6: the substitute for native TTL on the engine that has none removes what native TTL would remove (C17-R2/R3)
+	for _, o := range p.subResult("C17", tier).Obls {
+		if (o.Rule == "C17-R2" && strings.Contains(o.Construct, "age guard")) || o.Rule == "C17-R3" {
+			res.add("C12-R6", o.Rule+" "+o.Construct, o.Status, o.Pos, o.Detail)
+		}
 	}
 	// R5: who owns the bytes of a write
 	checkValueOwnership(p, r, res, "C12-R5", func(*ssa.Function) bool { return true })
